@@ -5,7 +5,7 @@ under the M1 schedule controller for every execution order of the per-file tasks
 (resp. sequence) with the model; the reader-worker contracts (M6) check each per-file scan."""
 import os, random, itertools
 import numpy as np
-from .. import common, gen, refparse, workload, pools, contracts
+from .. import common, gen, refparse, workload, pools, contracts, endurance
 
 ID = "C15"
 LEVEL = "exploration"
@@ -17,7 +17,7 @@ RULE = ("cases = generated plotfiles x field selector forms (int, name, ascendin
         "schedule); non-trivial = level with >=2 files holding >=2 boxes in one of them, or "
         "in-file order != box order, under a non-identity schedule")
 ASSUMPTIONS = ["tasks are atomic (one per binary file)", "generator/refparse trusted base"]
-REQUIRED_OBS = {"iterations": 200, "schedules_nonidentity": 30,
+REQUIRED_OBS = {"endurance_calls": 100, "iterations": 200, "schedules_nonidentity": 30,
                 "iter_selections": 50}
 TIMEOUT = {"quick": 300, "thorough": 1200}
 
@@ -29,7 +29,8 @@ def cases(tier, seed):
         c["sel_seed"] = seed * 31 + i
         c["gen"]["maxfiles"] = 4 if i % 4 else 6
     cs.append({"kind": "huge", "sel_seed": seed * 31 + 999})      # byte offsets beyond 2**31
-    return cs
+    # M10: the same operation repeated in one process under a low open-file limit (vlib/endurance.py)
+    return list(cs) + [endurance.case("iterate", tier, seed)]
 
 
 def setup():
@@ -77,6 +78,8 @@ def run_huge(case, work, rec):
 
 
 def run_case(case, work, rec):
+    if case.get("kind") == "endurance":
+        return endurance.run_case(case, work, rec)
     if case.get("kind") == "huge":
         return run_huge(case, work, rec)
     from amr_kitchen import PlotfileCooker
